@@ -1,0 +1,32 @@
+//! Verification hooks (feature `verif-hooks`, off by default)
+//!
+//! Nothing in here is used by the library itself: it gives an external harness
+//! access to private pure kernels and lets it observe / order the critical sections
+//! of the connection pools. With no callback registered [`point`] does nothing.
+
+use std::sync::{Arc, RwLock};
+
+/// Callback invoked at every scheduling point with the name of the point
+pub type Callback = Arc<dyn Fn(&'static str) + Send + Sync + 'static>;
+
+static CALLBACK: RwLock<Option<Callback>> = RwLock::new(None);
+
+/// Registers (or removes) the scheduling point callback
+pub fn set_callback(cb: Option<Callback>) {
+    *CALLBACK.write().unwrap() = cb;
+}
+
+/// A scheduling point
+#[allow(dead_code)]
+pub(crate) fn point(name: &'static str) {
+    let cb = CALLBACK.read().unwrap().clone();
+    if let Some(cb) = cb {
+        cb(name);
+    }
+}
+
+/// The SMTP transparency codec applied to `frames` (state carried across frames)
+#[cfg(feature = "smtp-transport")]
+pub fn codec_encode(frames: &[&[u8]]) -> Vec<u8> {
+    crate::transport::smtp::client::verif_codec_encode(frames)
+}
